@@ -24,6 +24,11 @@ K("bl2.patch_replace_source_clipped", ["C05", "C01", "C02"], "jxl-render", _BL, 
 K("bl2.patch_replace_rectangle_wide", ["C05", "C01", "C02"], "jxl-render", _BL, _BLM, "patch_replace_rectangle_wide", _PB_W, _PFNS,
   _PREQ % "inside the reference buffer (valid stream, reference rendered whole)" + _PENS % "kReplace", tier="thorough", timeout=1200, **_PKW)
 
+# registered by the orchestrator after the fix "patch blending refers to a non-existent alpha channel" (defect found by this harness)
+K("bl2.patch_total_alpha_mode", ["C01", "C05"], "jxl-render", _BL, _BLM, "patch_total_alpha_mode_without_extra_channels",
+  "bounded:2x1 float buffers, 1 colour channel, no extra channels; patch blend modes 4..7 (alpha modes) with the parser's default alpha_channel 0",
+  _PFNS, "patch() with an alpha blend mode on an image without extra channels returns (Ok or Err): no index out of bounds", timeout=600, **_PKW)
+
 # ---- image.rs: composite_preprocess -----------------------------------------------------------------------------------
 _CPB = ("bounded:1x1 buffers, %d colour channel(s) + 2 extra channels (I32 / I16 / optionally one F32 buffer); complete over all 4 frame types x "
         "is_last x duration (u32) x save_as_reference x resets_canvas x save_before_ct x do_ycbcr x ct_done")
